@@ -213,6 +213,20 @@ def main():
         m2 = re.search(r"memory:\s*([^,\n]+),", am)
         if m2:
             app_desc = "some true" if m2.group(1).strip() == "section.location()" else "some false"
+    # enumerate_mappings: is the dumper's mapping list *assigned* the aggregation of the map (and nothing else written to
+    # it but the entry-point swap)?
+    pdsrc = read("src/linux/ptrace_dumper.rs")
+    em = re.search(r"fn enumerate_mappings\(.*?\n    \}\n", pdsrc, re.S)
+    maps_replaced = "none"
+    if em:
+        body = em.group(0)
+        writes = re.findall(r"self\s*\.\s*mappings\s*(=[^=]|\.\s*\w+\()", body)
+        assign = re.search(r"self\.mappings\s*=\s*MappingInfo::aggregate\(", body)
+        others = [w for w in re.findall(r"self\s*\.\s*mappings\s*\.\s*(\w+)\(", body) if w not in ("iter", "swap", "len", "is_empty")]
+        if assign and not others and len(re.findall(r"self\.mappings\s*=[^=]", body)) == 1:
+            maps_replaced = "some true"
+        elif writes:
+            maps_replaced = "some false"
     out = []
     out.append("/- GENERATED by gen/extract.py from /repo's source — do not edit. -/")
     out.append("namespace Mdw.Src\n")
@@ -236,6 +250,7 @@ def main():
     out.append(f"\n/-- the steps of fill_thread_stack in source order (none = not recognisable) -/\ndef fillThreadStackSteps : Option (List String) := {fts}")
     out.append(f"\n/-- the crash-context thread's stack is gathered with `MaxStackLen::None` (none = not recognisable) -/\ndef crashThreadUnlimited : Option Bool := {crash_unlimited}")
     out.append(f"\n/-- an application region's descriptor is the location of the bytes that were copied (none = not recognisable) -/\ndef appDescriptorOfCopy : Option Bool := {app_desc}")
+    out.append(f"\n/-- `enumerate_mappings` assigns the aggregation of the memory map to the dumper's list — it does not add to what an earlier `init` left there (none = not recognisable) -/\ndef enumerateMappingsReplaces : Option Bool := {maps_replaced}")
     out.append("\nend Mdw.Src\n")
     text = "\n".join(out)
     os.makedirs(os.path.dirname(OUT), exist_ok=True)
